@@ -7,8 +7,7 @@ WT=$1; PID=$2; SID=$3
 OUT=/verif/seeded/$SID; mkdir -p $OUT
 LOG=$OUT/eval.log; : > $LOG
 cd $WT || exit 2
-git -C $WT diff -- src > $OUT/patch.diff
-[ -s $OUT/patch.diff ] || cp $WT/patch.diff $OUT/patch.diff
+if [ -s $WT/patch.diff ]; then cp $WT/patch.diff $OUT/patch.diff; else git -C $WT diff -- src > $OUT/patch.diff; fi
 cp $WT/demo.py $OUT/demo.py; cp $WT/meta.json $OUT/meta_agent.json 2>/dev/null
 # demo against the CURRENT /repo tree (unchanged) and against /repo + patch in a scratch copy
 S=$(mktemp -d /tmp/seedeval-XXXXXX); git -C /repo worktree add -q --detach $S/repo HEAD >> $LOG 2>&1
